@@ -1,6 +1,6 @@
 SPECIFICATION Spec
 CONSTANTS
-  Starts = {0,1,13,14}
+  Starts = {0,1,14}
   Gaps = {1,2,3}
   PMax = 34
   MaxLen = 8
